@@ -158,7 +158,8 @@ static void fd_route (int format, int ch)
 			{	SF_VERIF_STATE b0, b1 ; sf_count_t r ; vh_state (s, &b0) ; r = wr ? sf_write_short (s, sb, 2048 / ch * ch) : sf_read_short (s, sb, 2048 / ch * ch) ; vh_state (s, &b1) ;
 				if (r < 0 || r > 2048) vh_viol (vh_key ("C15|return-range|%s|%s|%s", wr ? "write" : "read", fn, mode == 0 ? "EBADF" : mode == 1 ? "EINTR" : "EIO"), "returned %lld", (long long) r) ;
 				else if ((wr ? b1.write_current - b0.write_current : b1.read_current - b0.read_current) != r / ch) vh_viol (vh_key ("C15|position-vs-count|%s|%s|%s", wr ? "write" : "read", fn, mode == 0 ? "EBADF" : mode == 1 ? "EINTR" : "EIO"), "returned %lld items, position moved %lld", (long long) r, (long long) (wr ? b1.write_current - b0.write_current : b1.read_current - b0.read_current)) ;
-				if (mode == 1 && r != 2048 / ch * ch && !wr && j == 0) vh_statf (1, "eintr_short_read:%s", fn) ;
+				/* EINTR is not a failure: the interrupted read() / write() succeeds when repeated, so the transfer must be complete (3000 frames are there to be read) */
+				if (mode == 1 && j == 0) { vh_stat ("interrupted_transfers_checked", 1) ; if (r != 2048 / ch * ch) vh_viol (vh_key ("C15|interrupted-transfer-short|%s|%s", wr ? "write" : "read", fn), "read()/write() number %ld on the descriptor failed three times with EINTR and then worked: the %s call returned %lld of %d items (sf_error %d)", at, wr ? "sf_write_short" : "sf_read_short", (long long) r, 2048 / ch * ch, sf_error (s)) ; }
 				}
 			sf_seek (s, 0, SEEK_SET) ;
 			sf_close (s) ;
